@@ -983,6 +983,11 @@ func expectAfterPay(calls []LnCall, inMelt bool, cur string) string {
 }
 
 func (s *Seq) OpMelt(q *HMeltQ, ps []ReqProof, script []string) string {
+	return s.OpMeltLn(q, ps, script, false)
+}
+
+// OpMeltLn: lnFail makes the next InvoiceStatus call of the backend fail (only the internal-settlement path calls it).
+func (s *Seq) OpMeltLn(q *HMeltQ, ps []ReqProof, script []string, lnFail bool) string {
 	req := nut05.PostMeltBolt11Request{Quote: q.Id}
 	for _, p := range ps {
 		req.Inputs = append(req.Inputs, p.P)
@@ -991,7 +996,7 @@ func (s *Seq) OpMelt(q *HMeltQ, ps []ReqProof, script []string) string {
 	for i, a := range script {
 		sc[i] = A(a)
 	}
-	line := L(A("mint.melt"), I(q.Sym), s.sxProofs(ps), Ls(sc))
+	line := L(A("mint.melt"), I(q.Sym), s.sxProofs(ps), Ls(sc), B(lnFail))
 	before := s.snap()
 	state := ""
 	// which mint quote would be settled internally
@@ -1002,7 +1007,15 @@ func (s *Seq) OpMelt(q *HMeltQ, ps []ReqProof, script []string) string {
 		}
 	}
 	res := s.runOp("melt", line, script, func() Sx {
+		if lnFail {
+			s.env.LN.mu.Lock()
+			s.env.LN.failNext["InvoiceStatus"] = 1
+			s.env.LN.mu.Unlock()
+		}
 		mq, err := s.env.M.MeltTokens(context.Background(), req)
+		s.env.LN.mu.Lock()
+		s.env.LN.failNext["InvoiceStatus"] = 0
+		s.env.LN.mu.Unlock()
 		if err != nil {
 			return canonErr(err)
 		}
